@@ -14,6 +14,7 @@ from pandera.api.polars.utils import get_lazyframe_column_names
 from pandera.backends.base import ColumnInfo, CoreCheckResult
 from pandera.backends.polars.base import PolarsSchemaBackend
 from pandera.config import ValidationDepth, ValidationScope, get_config_context
+from pandera.constants import CHECK_OUTPUT_KEY
 from pandera.errors import (
     ParserError,
     SchemaDefinitionError,
@@ -583,6 +584,7 @@ class DataFrameSchemaBackend(PolarsSchemaBackend):
         passed = True
         message = None
         failure_cases = None
+        check_output = None
 
         if not schema.unique:
             return CoreCheckResult(
@@ -602,9 +604,15 @@ class DataFrameSchemaBackend(PolarsSchemaBackend):
             subset = [
                 x for x in lst if x in get_lazyframe_column_names(check_obj)
             ]
+            if not subset:
+                # none of the columns is in the dataframe: nothing to compare
+                continue
             duplicates = check_obj.select(subset).collect().is_duplicated()
             if duplicates.any():
-                failure_cases = check_obj.filter(duplicates)
+                failure_cases = (
+                    check_obj.select(subset).filter(duplicates).collect()
+                )
+                check_output = pl.DataFrame({CHECK_OUTPUT_KEY: ~duplicates})
 
                 passed = False
                 message = f"columns '{*subset,}' not unique:\n{failure_cases}"
@@ -615,4 +623,5 @@ class DataFrameSchemaBackend(PolarsSchemaBackend):
             reason_code=SchemaErrorReason.DUPLICATES,
             message=message,
             failure_cases=failure_cases,
+            check_output=check_output,
         )
